@@ -168,6 +168,21 @@ Proof.
     eapply Forall_impl; [|exact Hc]. intros e He; exact He.
 Qed.
 
+(* a mutation of the flush in flight reaching the store early stays hidden behind the flushing buffer *)
+Lemma rinv_store_step s r i : rinv s r -> rinv (store_step s i) r.
+Proof.
+  intros H. unfold store_step. destruct (inflight s) eqn:Ei; [|exact H].
+  destruct (flushing s) as [[g fb]|] eqn:Ef; [|exact H].
+  destruct (nth_error fb (N.to_nat i)) as [[k v]|] eqn:En; [|exact H].
+  eapply rinv_transfer; try exact H; try reflexivity; auto.
+  - intros k'. unfold below; cbn [set_store flushing store]. rewrite Ef, lookup_insert.
+    destruct (lookup k' fb) eqn:El; [reflexivity|]. destruct (bytes_eqb k' k) eqn:E; [|reflexivity].
+    apply bytes_eqb_eq in E; subst k'. exfalso. apply nth_error_In in En.
+    assert (Hin : In k (map fst fb)) by (apply in_map_iff; exists (k, v); auto).
+    apply In_lookup in Hin as [w Hw]. congruence.
+  - cbn [set_store flushing inflight store]. intros g' fb' _ Hi. congruence.
+Qed.
+
 Lemma rinv_step P s r o : shape s -> rinv s r -> closed (fst (step P s o)) = false ->
   rinv (fst (step P s o)) (rstep r o).
 Proof.
@@ -191,6 +206,7 @@ Proof.
     + inversion H3 as [|m0 rm0 t0 rt0 Hh Ht [Ea Eb] Er]. destruct H as [H1 H2 _ H4]. constructor; proj; auto. discriminate.
   - intros _; exact H.
   - intros _; exact H.
+  - intros _. cbn [fst]. apply rinv_store_step; exact H.
 Qed.
 
 Lemma rinv_run_from P ops : forall s r, shape s -> rinv s r -> closed (run_from P s ops) = false ->
